@@ -23,6 +23,7 @@ type jSite struct {
 	Loc      string   `json:"loc"`
 	Kind     string   `json:"kind"`
 	Held     []string `json:"held"`
+	Lost     []string `json:"lost,omitempty"`
 	Foreign  bool     `json:"foreign,omitempty"`
 	Class    string   `json:"class"`
 	OK       bool     `json:"ok"`
@@ -212,7 +213,7 @@ func (a *analysis) render() *jOut {
 				s := &n.Sites[i]
 				d.usedLocs[s.Loc] = true
 				k := d.siteKey(n, s)
-				js := jSite{Key: k, Where: s.Where, Loc: s.Loc, Kind: s.Kind, Held: strs(s.Held), Foreign: s.Foreign,
+				js := jSite{Key: k, Where: s.Where, Loc: s.Loc, Kind: s.Kind, Held: strs(s.Held), Lost: strs(s.Lost), Foreign: s.Foreign,
 					Class: d.classOf(s.Loc).Class, OK: d.siteOK(n, s, false), OKStrict: d.siteOK(n, s, true), Note: s.Note,
 					Exempt: a.exempt[k]}
 				if js.Exempt {
